@@ -76,7 +76,8 @@ CLAIMED["C04"] = dict(
          "atoms and non-atoms; default / memory-saving / forest rule databases; scripted time-slicings): the start label carries "
          "the rule's parent class, end labels are the children's labels in order, the rule is what a pack strategy produces when "
          "re-applied, omitted children are truly empty and declared possibly empty; labels are a bijection (ClassDB clauses run on "
-         "the same stream).",
+         "the same stream). "
+         "Search.tla now models inferral strategies (rotation / skip), symmetry expansion, strategy factories with foreign parents, several expansion sets, iterative packs and the forest database with or without reverse keys: the loops of about 300 recorded searches over 29 packs are validated step by step (Trace_SearchLoop) and every time-slicing of a sample of their universes is model-checked (MC_Search).",
     design_ref="DESIGN.md 3/C04",
     note="Trusted: TLC; the session recorder (wraps ruledb.add, _rules_from_strategy, ClassDB methods). The ClassDB model it rests "
          "on is model-checked under C15. Re-application of the strategy is executed by the harness and compared by TLC.",
@@ -102,7 +103,8 @@ CLAIMED["C01"] = dict(
          "second dynamic-programming definition is proved equal by TLC on 2744 classes). Every specification handed back by the "
          "search campaign (three rule databases; packs with symmetries, inferral, merged/dropped statistics, factories, iterative, "
          "non-atom verification; 'smallest'; scripted time-slicings so that every slicing pattern is reachable) has its root "
-         "enumeration for n <= 6 and every parameter tuple judged by TLC against that truth.",
+         "enumeration for n <= 6 and every parameter tuple judged by TLC against that truth. "
+         "Also: every productive system of the tree universe (TreeUniverse.tla; chosen by TLC, MC_TreeSystems) is built as a real specification and its counts for n <= 5 are judged against the TLA+-defined parse trees.",
     design_ref="DESIGN.md 3/C01",
     note="Trusted: TLC; the fixture classes' description sent to TLA+ (prefix, patterns, alphabet, statistics) is the class itself. "
          "Bounds: n <= 6 (2 letters) / 5 (3 letters).",
@@ -127,7 +129,8 @@ CLAIMED["C17"] = dict(
          "and restored; Resume.tla (product construction) demands restored == original and that both copies, given the same "
          "further calls, expand the same work, build the same classes/labels/emptiness/rules/verified set and give the same "
          "answers and enumeration; the interrupted original's queue traffic must be a behaviour of ClassQueue.tla with no handed-out "
-         "packet lost, and the specification finally returned is judged by SpecValid/WordUniverse (C01/C02). TLC judges all traces.",
+         "packet lost, and the specification finally returned is judged by SpecValid/WordUniverse (C01/C02). TLC judges all traces. "
+         "After the continuation both copies are asked for the specification again with no work in between. Loop conformance against Search.tla (forest database, several strategies per class: a class may become verified by one of its own earlier packets, so expand-or-skip must be decided per packet).",
     design_ref="DESIGN.md 3/C17",
     note="Trusted: TLC, the scripted clock (replaces the time module inside comb_spec_searcher.comb_spec_searcher), pickle. Identity "
          "of returned rules is not demanded across a pickle, only validity and counts.",
@@ -141,7 +144,8 @@ CLAIMED["C11"] = dict(
          "TLC proves on all small universes that a minimal productive set is functional and closed and exports the pumping "
          "universes; each, under several bucket assignments, and seeded random universes go through the real ForestRuleExtractor on "
          "a real TableMethod; forest searches (reverse on/off, incl. a pack needing reverse rules) have their extraction and the "
-         "concrete rules handed out recorded; TLC judges every extraction.",
+         "concrete rules handed out recorded; TLC judges every extraction. "
+         "A forest search that raises out of the extraction is a violation of its own (no concrete rule re-created for an extracted key).",
     design_ref="DESIGN.md 3/C11",
     note="Trusted: TLC; needed_rules is read from the extractor after _minimize; the independent fixed point decides productivity.",
     technique="TLA+ spec + TLC model checking; replay of TLC-enumerated universes; trace validation by TLC",
@@ -172,7 +176,8 @@ CLAIMED["C07"] = dict(
     text="Objects generated by every rule form that supports it (from the children's true objects) and by the root and every rule of "
          "campaign specifications are judged by TLC against Objs(c, n) of WordUniverse.tla: exact set per parameter value, no "
          "repetition, number = the count the same rule/specification reports; forward_map then backward_map on every object, parts "
-         "in the child classes, right shape for unions / products (plain, equivalence, reverse-of-equivalence, path forms).",
+         "in the child classes, right shape for unions / products (plain, equivalence, reverse-of-equivalence, path forms). "
+         "Also: generation from the real specifications of all TLC-chosen productive systems of the tree universe, judged against TreeUniverse.tla (each object once, exactly the objects of that size).",
     design_ref="DESIGN.md 3/C07", note="Trusted: TLC; WordUniverse.tla (two definitions proved equal under C01); the rule laboratory's recording providers (their outputs are validated against the truth by TLC; a mismatch is exit 2).",
     technique="TLA+ ground-truth specification; result validation by TLC",
 )
@@ -192,7 +197,8 @@ CLAIMED["C19"] = dict(
     text="Expand.tla (same start class, no verified class offering a pack remains, no shared rule object, original unchanged) "
          "together with SpecValid.tla and WordUniverse.tla judge expand_verified() on specifications with 1-6 strategy-verified "
          "classes (verified root, verified classes beside symmetry/inferral equivalences, factories, a verification pack that needs "
-         "reverse rules), produced by each of the three rule databases under scripted time-slicings.",
+         "reverse rules), produced by each of the three rule databases under scripted time-slicings. "
+         "Also: nested verification packs (the offered pack itself verifies, with a pack-offering strategy, classes that only appear in the expansion) and originals that already contain a reverse rule while the verified class needs the reverse fallback.",
     design_ref="DESIGN.md 3/C19",
     note="Trusted: TLC; rule-object identity is read with id() while all original rules are kept alive. The inner forest searches "
          "are judged by their product only.",
@@ -205,7 +211,8 @@ CLAIMED["C12"] = dict(
          "three rule databases with plain / symmetry / inferral packs, mirror pairs forced in; pairs returned by the parallel "
          "finder under C13; bijections reloaded from JSON) the complete map and inverse tables for n <= 6 are judged by TLC: into "
          "the second class's objects of the same size, one-to-one, onto, both inverse laws; the isomorphism test is symmetric and "
-         "reflexive on specifications whose verified classes are atoms. Nothing is demanded when no bijection is returned.",
+         "reflexive on specifications whose verified classes are atoms. Nothing is demanded when no bijection is returned. "
+         "Also: pairs of TLC-chosen productive systems of the tree universe (all 340 with two internal classes, a random part with three) built as real specifications: isomorphism test both ways, reflexivity, and every constructed bijection's complete tables for n <= 4 judged against TreeUniverse.tla; random three-letter pattern sets against their renamed images over all packs and rule databases (D14 was found there). Bisim.tla (greatest bisimulation, lemma checked by MC_Bisim) is compared with the library's test (disagreements are notes).",
     design_ref="DESIGN.md 3/C12",
     note="Trusted: TLC; objects are enumerated from the fixture classes and checked by TLC to be exactly Objs(c, n).",
     technique="TLA+ ground-truth specification of bijectivity; result validation by TLC",
@@ -215,7 +222,8 @@ CLAIMED["C13"] = dict(
     text="Every ordered pair of searchers (start classes x {plain, symmetry, inferral, both}) x both finder variants: TLC judges "
          "the outcome (nothing / pair; any exception is a violation of totality), that a returned pair is isomorphic and yields a "
          "bijection (whose tables are judged as in C12), and that each returned specification is valid and enumerates its own "
-         "start class (SpecValid.tla / WordUniverse.tla, C01/C02 clauses).",
+         "start class (SpecValid.tla / WordUniverse.tla, C01/C02 clauses). "
+         "The isomorphism of a returned pair is also judged independently by Bisim.tla (greatest bisimulation; its greedy child pairing is proved exact by MC_Bisim). Packs with two competing expansion strategies over three letters (forced configurations and, in the thorough tier, 1500 random pattern sets) exercise the second search's backtracking (D12, D13).",
     design_ref="DESIGN.md 3/C13",
     note="Trusted: TLC. Preconditions of the finder respected: default rule database, atom verification.",
     technique="TLA+ specifications (Iso, SpecValid, WordUniverse); result validation by TLC over all pairs",
@@ -229,7 +237,8 @@ CLAIMED["C18"] = dict(
          "Enc(form tree), has exactly the keys of its form, decodes to the same tree, that the reloaded rule has the same tree "
          "and == holds; the reloaded specification equals the original and enumerates the ground truth; packs round-trip slot "
          "by slot; strategy equality = same kind and settings for instances obtained directly, through a generic alias, by "
-         "from_dict, copy, deepcopy and pickle (and inequality for different settings/kinds). Bijection round trips: C12.",
+         "from_dict, copy, deepcopy and pickle (and inequality for different settings/kinds). Bijection round trips: C12. "
+         "Bijections (also between specifications matching only up to unrolling a recursion) are dumped, reloaded and compared with the original on all objects up to size 5.",
     design_ref="DESIGN.md 3/C18",
     note="This family decides structure (wire format, form algebra, equality semantics, behaviour of the reloaded object), not byte-"
          "level fidelity of user classes' JSON, which is an input contract.",
@@ -242,7 +251,8 @@ CLAIMED["C20"] = dict(
          "series) evaluates every equation of every campaign specification - exported as the AST of the numerator of lhs - rhs - "
          "with each class function replaced by the TLA+-defined true series in x and the statistics; it must vanish up to order N. "
          "A returned closed form, normalised to P/Q over Z[x], must satisfy Q*C = P up to an order M beyond which equality is "
-         "forced by a degree argument (C = dynamic-programming counts of WordUniverse.tla), i.e. at every order.",
+         "forced by a degree argument (C = dynamic-programming counts of WordUniverse.tla), i.e. at every order. "
+         "Also: the equation of every rule form (rule, reverse, equivalence, equivalence of a reverse, equivalence paths) of the rule laboratory in isolation.",
     design_ref="DESIGN.md 3/C20",
     note="Trusted: TLC; sympy's together/expand/cancel for translating expressions (the identities themselves are evaluated by TLC).",
     technique="TLA+ series algebra over the ground-truth specification; result validation by TLC",
